@@ -443,6 +443,7 @@ def tie_ino(ctx, bl, drv):
 # search oracle (b): tool level
 # ----------------------------------------------------------------------------------------------
 BS = 4096
+_CONFIRM_LOCK = threading.Lock()
 TOOL_TIMEOUT = 10      # a packer run on these inputs takes 10..100 ms; a hang is a finding, not something to wait for
 
 
@@ -656,7 +657,14 @@ def tie_layout(ctx, bl, drv_img):
         env.pop("SOURCE_DATE_EPOCH", None)
         stdin = open(sp["tar"], "rb") if tool == "tar2sqfs" else subprocess.DEVNULL
         try:
-            p = subprocess.run(cmd, stdin=stdin, stdout=subprocess.PIPE, stderr=subprocess.PIPE, env=env, timeout=TOOL_TIMEOUT)
+            try:
+                p = subprocess.run(cmd, stdin=stdin, stdout=subprocess.PIPE, stderr=subprocess.PIPE, env=env, timeout=TOOL_TIMEOUT)
+            except subprocess.TimeoutExpired:
+                # confirm alone with a generous limit before calling it a hang (machine load is not a finding)
+                with _CONFIRM_LOCK:
+                    if tool == "tar2sqfs":
+                        stdin.seek(0)
+                    p = subprocess.run(cmd, stdin=stdin, stdout=subprocess.PIPE, stderr=subprocess.PIPE, env=env, timeout=6 * TOOL_TIMEOUT)
             if p.returncode != 0:
                 return "<%s failed rc=%d: %s>" % (tool, p.returncode, p.stderr.decode("utf-8", "replace")[-200:])
             return _image_layout(out)
@@ -791,6 +799,17 @@ def run_tool(bl, build, spec, out, jobs=None, backlog=None, variant=None, delay=
         rc, err = r.returncode, r.stderr.decode("utf-8", "replace")
     except subprocess.TimeoutExpired:
         rc, err = 124, "[timeout]"
+        if not pipe:
+            # confirm alone with a generous limit before calling it a hang (machine load is not a finding)
+            try:
+                with _CONFIRM_LOCK:
+                    if spec.get("stdin"):
+                        stdin.seek(0)
+                    r = subprocess.run(cmd, stdin=stdin, stdout=subprocess.PIPE, stderr=subprocess.PIPE, env=env, cwd=cwd,
+                                       preexec_fn=(lambda: os.umask(um)) if um is not None else None, timeout=6 * TOOL_TIMEOUT)
+                rc, err = r.returncode, r.stderr.decode("utf-8", "replace")
+            except subprocess.TimeoutExpired:
+                rc, err = 124, "[timeout, confirmed alone with %d s]" % (6 * TOOL_TIMEOUT)
     finally:
         if spec.get("stdin"):
             stdin.close()
